@@ -475,6 +475,12 @@ func (vp baseStuckVoteproof) isValid(networkID []byte, ovp baseVoteproof) error 
 		return util.ErrInvalid.Errorf("empty expels")
 	}
 
+	// NOTE stuck voteproof decides nothing; the vote result of it's sign facts
+	// is not counted, so it can not carry majority.
+	if ovp.majority != nil {
+		return util.ErrInvalid.Errorf("not empty majority for stuck voteproof")
+	}
+
 	return isValidithdrawVoteproof(networkID, vp.expels, ovp)
 }
 
